@@ -36,6 +36,12 @@ type Config struct {
 	//   connection kind, elsewhere; displaced states are expanded like any other.
 	RFX     bool
 	RFXWide bool
+	// Overrun offers, wherever a positive Content-Length is declared, attempts to write more than it
+	// leaves room for: Write of rest+1 and rest+64 KiB bytes, WriteString and ReadFrom(bytes.Reader)
+	// of rest+1 (OverrunWide: of both sizes). The program goes on afterwards (the refused call
+	// changes nothing); with Pipeline such programs get the follow-up request as well.
+	Overrun     bool
+	OverrunWide bool
 	// Pipeline: programs that read from a file are followed, on the keep-alive request versions, by
 	// a second request on the same connection (Program.Next).
 	Pipeline bool
@@ -49,6 +55,7 @@ type Config struct {
 // key (the C09 space; C11 keeps the plain alphabet).
 func (c Config) WithFileSegments(wide bool) Config {
 	c.RFX, c.RFXWide, c.Pipeline, c.KeyConn = true, wide, true, wide
+	c.Overrun = true
 	if !contains(c.CLFixed, 1) {
 		// so that a one-byte segment can be all a response declares
 		c.CLFixed = append([]int{1}, c.CLFixed...)
@@ -396,6 +403,21 @@ func (x *Explorer) successors(n *Node) []succ {
 		add(Op{K: OpWS, N: s.n, Sym: s.sym})
 	}
 	add(Op{K: OpF})
+	if cfg.Overrun && no204() && m.CLInForce() && rem >= 0 {
+		next := cfg.Pipeline && !m.ReqClose
+		for _, beyond := range []int{1, 65536} {
+			n := rem + beyond
+			if m.Body+n > PatLen {
+				continue
+			}
+			sym := fmt.Sprintf("rest+%d", beyond)
+			out = append(out, succ{op: Op{K: OpOW, N: n, Sym: sym}, next: next})
+			if beyond == 1 || cfg.OverrunWide {
+				out = append(out, succ{op: Op{K: OpOWS, N: n, Sym: sym}, next: next})
+				out = append(out, succ{op: Op{K: OpORF, N: n, Sym: sym}, next: next})
+			}
+		}
+	}
 	if no204() {
 		for _, v := range cfg.RFB {
 			if fits(v) {
